@@ -769,13 +769,14 @@ def classify_struct(hist, cy, py):
     if i >= len(hist):
         return "trace_mismatch"
     started = any(not r[0].startswith("E5:0") for r in py[:i])
-    if not started and any(h[0] == "s" and h != "sN" for h in hist[:i]):
+    # (a class whose defect is repaired -- FX flag "1" -- is no longer a candidate)
+    if FX[0] != "1" and not started and any(h[0] == "s" and h != "sN" for h in hist[:i]):
         return FX_NAMES[0]
-    if not started and hist[i].startswith("t3"):
+    if FX[1] != "1" and not started and hist[i].startswith("t3"):
         return FX_NAMES[1]
-    if hist[i] in ("c", "d") and i < len(cy) and cy[i][0] in ("E4:1", "U4:1") and py[i][0] == "N":
+    if FX[2] != "1" and hist[i] in ("c", "d") and i < len(cy) and cy[i][0] in ("E4:1", "U4:1") and py[i][0] == "N":
         return FX_NAMES[2]
-    if i < len(cy) and i < len(py) and (hist[i].startswith("t3") or hist[i] in ("c", "t2")):
+    if FX[3] != "1" and i < len(cy) and i < len(py) and (hist[i].startswith("t3") or hist[i] in ("c", "t2")):
         return FX_NAMES[3]
     return "trace_mismatch"
 
